@@ -228,30 +228,43 @@ def random_nfa(Sigma: Set[Symbol], n: int) -> NFA:
     return NFA(Q, Sigma, delta, q0, F, epsilon)
 
 
+def _nfa_fresh_state(id_generator: IdentifierGenerator, Q: Set[State]) -> State:
+    q = State(id_generator.generate('q'))
+    while q in Q:
+        q = State(id_generator.generate('q'))
+    return q
+
+
+def _nfa_copy_delta(delta, N: NFA, epsilon: Symbol) -> None:
+    """Adds copies of the transitions of N to delta, using epsilon as the epsilon symbol."""
+    for (q, a), Q1 in N.delta.items():
+        delta[q, epsilon if a == N.epsilon else a] = set(Q1)
+
+
 def nfa_repetition(N: NFA, id_generator: IdentifierGenerator = IdentifierGenerator()) -> NFA:
     Sigma = N.Sigma
-    q0 = State(id_generator.generate('q'))
+    q0 = _nfa_fresh_state(id_generator, N.Q)
     Q = N.Q | {q0}
     F = N.F | {q0}
     delta = defaultdict(lambda: set([]))
-    delta.update(N.delta)
+    _nfa_copy_delta(delta, N, N.epsilon)
     for q in F:
         delta[q, N.epsilon] |= {N.q0}
     delta[q0, N.epsilon] = {N.q0}
-    return NFA(Q, Sigma, delta, q0, F)
+    return NFA(Q, Sigma, delta, q0, F, N.epsilon)
 
 
 def nfa_union(N1: NFA, N2: NFA, id_generator: IdentifierGenerator = IdentifierGenerator()) -> NFA:
     assert N1.Q.isdisjoint(N2.Q)
     Sigma = N1.Sigma | N2.Sigma
-    q0 = State(id_generator.generate('q'))
+    q0 = _nfa_fresh_state(id_generator, N1.Q | N2.Q)
     Q = N1.Q | N2.Q | {q0}
     F = N1.F | N2.F
     delta = defaultdict(lambda: set([]))
-    delta.update(N1.delta)
-    delta.update(N2.delta)
+    _nfa_copy_delta(delta, N1, N1.epsilon)
+    _nfa_copy_delta(delta, N2, N1.epsilon)
     delta[q0, N1.epsilon] = {N1.q0, N2.q0}
-    return NFA(Q, Sigma, delta, q0, F)
+    return NFA(Q, Sigma, delta, q0, F, N1.epsilon)
 
 
 def nfa_concatenation(N1: NFA, N2: NFA) -> NFA:
@@ -261,11 +274,11 @@ def nfa_concatenation(N1: NFA, N2: NFA) -> NFA:
     Q = N1.Q | N2.Q | {q0}
     F = N2.F
     delta = defaultdict(lambda: set([]))
-    delta.update(N1.delta)
-    delta.update(N2.delta)
+    _nfa_copy_delta(delta, N1, N1.epsilon)
+    _nfa_copy_delta(delta, N2, N1.epsilon)
     for q in N1.F:
         delta[q, N1.epsilon] |= {N2.q0}
-    return NFA(Q, Sigma, delta, q0, F)
+    return NFA(Q, Sigma, delta, q0, F, N1.epsilon)
 
 
 def print_nfa(N: NFA) -> str:
